@@ -213,6 +213,7 @@ type world struct {
 	muts   int
 	frozen bool
 	faultMode, hit bool
+	failAt, ncalls int
 
 	idTab    []idInfo          // every id string seen, in order of first appearance
 	idModel  map[string]string // id string -> Gallina term
@@ -236,6 +237,20 @@ func newWorld(r *hx.Rng) *world {
 	w.rec.Before = func(c *hx.Call) error {
 		if c.Store != compkms.AriesWrapperStoreName {
 			return nil
+		}
+
+		if c.Op == "Get" || c.Op == "Put" || c.Op == "Delete" {
+			w.ncalls++
+
+			if !w.frozen && w.failAt > 0 && w.ncalls == w.failAt {
+				w.hit = true
+
+				if c.Op != "Get" {
+					w.muts++
+				}
+
+				return hx.ErrInjected
+			}
 		}
 
 		if c.Op == "Put" || c.Op == "Delete" {
@@ -365,6 +380,10 @@ type Op struct {
 	Ref   int    `json:"ref"`           // rotate/get/export: index into the ids returned so far; -1 = an id never issued
 	Crash int    `json:"crash"`         // -1 none; k = the call is interrupted at its (k+1)-th store mutation: ...
 	Fault bool   `json:"fault,omitempty"` // ... false: the process dies there (store frozen, key manager reopened); true: only that store call fails
+
+	// FailAt k >= 1: the k-th call (Get, Put or Delete) this operation makes on the storage provider UNDERNEATH the
+	// kms store wrapper fails once with an I/O error; 0 = none
+	FailAt int `json:"failat,omitempty"`
 
 	seq int
 }
@@ -542,6 +561,7 @@ func (w *world) poolKey(op Op) poolKey {
 
 func (w *world) apply(pos int, op Op) Obs {
 	w.limit, w.muts, w.frozen, w.faultMode, w.hit = op.Crash, 0, false, op.Fault, false
+	w.failAt, w.ncalls = op.FailAt, 0
 	w.rec.Reset()
 
 	w.curImportAtom = -1
@@ -584,8 +604,10 @@ func (w *world) apply(pos int, op Op) Obs {
 		w.kms = mustOpen(w, true)
 	}
 
-	crashed := w.frozen || w.hit
-	w.limit, w.frozen, w.hit = -1, false, false
+	// interrupted: the process died, or a store call failed and the operation gave up with an error (an operation
+	// that SUCCEEDS although one of its store calls failed is reported with what it returned)
+	crashed := w.frozen || (w.hit && err != nil)
+	w.limit, w.frozen, w.hit, w.failAt = -1, false, false, 0
 
 	calls := w.rec.Snapshot()
 	w.rec.Reset()
@@ -679,7 +701,7 @@ func (w *world) apply(pos int, op Op) Obs {
 		w.modelID(userID(op.UID), pos, obsv)
 	}
 
-	if op.Ref < 0 && (op.Kind == "get" || op.Kind == "rotate" || op.Kind == "export") {
+	if w.refID(op.Ref) == bogusID && (op.Kind == "get" || op.Kind == "rotate" || op.Kind == "export") {
 		w.modelID(bogusID, pos, obsv)
 	}
 
@@ -697,7 +719,7 @@ func (w *world) apply(pos int, op Op) Obs {
 
 	w.rec.Record = true
 
-	if (crashed || op.Crash >= 0) && !op.Fault {
+	if op.Crash >= 0 && !op.Fault {
 		// the process died (or was restarted right after the call): a fresh key manager takes over
 		w.kms = mustOpen(w, true)
 	}
@@ -729,12 +751,16 @@ func (w *world) atomOfPub(pub []byte) int {
 
 // ---------- Coq printing ----------
 
-func coqCrash(c int) string {
-	if c < 0 {
+func coqCrash(op Op) string {
+	if op.FailAt > 0 {
+		return fmt.Sprintf("(Some (ICall %d%%nat))", op.FailAt-1)
+	}
+
+	if op.Crash < 0 {
 		return "None"
 	}
 
-	return fmt.Sprintf("(Some %d%%nat)", c)
+	return fmt.Sprintf("(Some (IMut %d%%nat))", op.Crash)
 }
 
 func (w *world) coqOp(op Op) string {
@@ -762,7 +788,7 @@ func (w *world) coqOp(op Op) string {
 		o = "KReopen"
 	}
 
-	return "(" + o + ", " + coqCrash(op.Crash) + ")"
+	return "(" + o + ", " + coqCrash(op) + ")"
 }
 
 func coqObs(o Obs, tab map[string]string) string {
@@ -830,7 +856,7 @@ func runHistory(kind string, ops []Op, seed *hx.Rng, tr *hx.Trace) {
 		o := w.apply(i, op)
 		obs = append(obs, o)
 		coqOps = append(coqOps, w.coqOp(op))
-		classParts = append(classParts, fmt.Sprintf("%s/%s/%d%v/%s", op.Kind, ktClass(op, w, old), op.Crash, op.Fault, o.Out))
+		classParts = append(classParts, fmt.Sprintf("%s/%s/%d%v%d/%s", op.Kind, ktClass(op, w, old), op.Crash, op.Fault, op.FailAt, o.Out))
 
 		kt := ktByName(op.KT)
 		if op.Kind == "rotate" {
@@ -908,7 +934,7 @@ func runHistory(kind string, ops []Op, seed *hx.Rng, tr *hx.Trace) {
 				sig := "durable:" + op.Kind
 				if o.Out == "crashed" {
 					sig = "crash:" + op.Kind + "-loses-key"
-					if op.Fault {
+					if op.Fault || op.FailAt > 0 {
 						sig = "fault:" + op.Kind + "-loses-key"
 					}
 				}
@@ -959,6 +985,10 @@ func runHistory(kind string, ops []Op, seed *hx.Rng, tr *hx.Trace) {
 
 		if op.Crash >= 0 && op.Fault {
 			rec.Dist = append(rec.Dist, fmt.Sprintf("fault=%d", op.Crash))
+		}
+
+		if op.FailAt > 0 {
+			rec.Dist = append(rec.Dist, fmt.Sprintf("failcall=%d", op.FailAt))
 		}
 	}
 
@@ -1314,6 +1344,17 @@ func refsFor(kinds []string, crashes []int, faults bool) []Op {
 					a = append(a, Op{Kind: k, Ref: ref, Crash: c, Fault: true})
 				}
 			}
+
+			if faults {
+				n := 1
+				if k == "rotate" {
+					n = 4
+				}
+
+				for f := 1; f <= n; f++ {
+					a = append(a, Op{Kind: k, Ref: ref, Crash: -1, FailAt: f})
+				}
+			}
 		}
 	}
 
@@ -1336,7 +1377,8 @@ func alphabet(kts []string, full bool) []Op {
 		}
 
 		if full {
-			a = append(a, Op{Kind: "createx", KT: kt, Crash: -1, Ref: -1})
+			a = append(a, Op{Kind: "createx", KT: kt, Crash: -1, Ref: -1},
+				Op{Kind: "create", KT: kt, Crash: -1, Ref: -1, FailAt: 1}, Op{Kind: "createx", KT: kt, Crash: -1, Ref: -1, FailAt: 3})
 		}
 
 		if info.imp != "" {
@@ -1347,6 +1389,10 @@ func alphabet(kts []string, full bool) []Op {
 			if full {
 				a = append(a, Op{Kind: "import", KT: kt, UID: 1, Key: 1, Crash: -1, Ref: -1},
 					Op{Kind: "import", KT: kt, UID: 2, Crash: 0, Ref: -1})
+
+				for f := 1; f <= 3; f++ {
+					a = append(a, Op{Kind: "import", KT: kt, UID: 1, Key: 1, Crash: -1, Ref: -1, FailAt: f})
+				}
 			}
 		}
 	}
@@ -1439,6 +1485,8 @@ func randomHistory(r *hx.Rng, n int) []Op {
 		if o.Kind != "reopen" && o.Kind != "get" && o.Kind != "export" && r.Intn(3) == 0 {
 			o.Crash = r.Intn(3)
 			o.Fault = r.Intn(3) == 0
+		} else if o.Kind != "reopen" && r.Intn(4) == 0 {
+			o.FailAt = 1 + r.Intn(4)
 		}
 
 		ops = append(ops, o)
@@ -1567,8 +1615,38 @@ func main() {
 		}
 	}
 
+	// failing storage calls underneath the kms store wrapper, every position: an import under an id in use, a rotation;
+	// and, on ONE key manager instance: import under id x, Get, Rotate, import another key under x again, Get
+	for _, kt := range ktypes {
+		for f := 1; f <= 4; f++ {
+			if kt.imp == "" {
+				runHistory("sweep-failcall", []Op{
+					{Kind: "create", KT: kt.name, Ref: -1, Crash: -1},
+					{Kind: "rotate", Ref: 0, Crash: -1, FailAt: f},
+					{Kind: "get", Ref: 0, Crash: -1}, {Kind: "get", Ref: 1, Crash: -1},
+				}, next(), tr)
+
+				continue
+			}
+
+			runHistory("sweep-failcall", []Op{
+				{Kind: "import", KT: kt.name, UID: 1, Key: 0, Ref: -1, Crash: -1},
+				{Kind: "get", Ref: 0, Crash: -1},
+				{Kind: "import", KT: kt.name, UID: 1, Key: 1, Ref: -1, Crash: -1, FailAt: f},
+				{Kind: "get", Ref: 0, Crash: -1},
+				{Kind: "import", KT: kt.name, UID: 1, Key: 1, Ref: -1, Crash: -1},
+				{Kind: "rotate", Ref: 0, Crash: -1},
+				{Kind: "import", KT: kt.name, UID: 1, Key: 1, Ref: -1, Crash: -1},
+				{Kind: "get", Ref: 2, Crash: -1},
+				{Kind: "export", Ref: 2, Crash: -1},
+				{Kind: "rotate", Ref: 2, Crash: -1, FailAt: f},
+				{Kind: "get", Ref: 2, Crash: -1},
+			}, next(), tr)
+		}
+	}
+
 	// exhaustive: all histories up to length 2 over a five-type alphabet with every crash point, up to 3 over a two-type one
-	five := []string{"AES256GCM", "ED25519", "ECDSAP256IEEEP1363", "NISTP256ECDHKW", "X25519ECDHKW"}
+	five := []string{"AES256GCM", "ED25519", "ECDSAP256IEEEP1363", "X25519ECDHKW"}
 	enumerate(alphabet(five, true), 2, func(ops []Op) { runHistory("exhaustive-2", ops, next(), tr) })
 
 	deep, nRandom := 3, 700
